@@ -60,10 +60,10 @@ def content_scheme(name: str, large: int = 200_000):
         a = _big(1, large)
         b = a[:-1] + bytes([a[-1] ^ 1])          # same size, differs in the last byte only
         return ({1: a, 2: b, 3: b"\x00" * (large // 2 + 1), 4: _big(4, large), 5: b"\x00"},
-                {1: b"\xff\xfe", 2: b"\xfe\xff", 3: b"x" * 300, 4: b"\x80\x81", 5: b"\x01"})
-    if name == "linkdir":       # link targets name sibling paths (a directory when d/... exists)
+                {1: b"\xff\xfe", 2: b"\xfe\xff", 3: b"x" * 200, 4: b"\x80\x81", 5: b"\x01"})
+    if name == "linkdir":       # link targets name existing (empty, hence invisible) directories, the parent, nothing
         return ({1: b"one\n", 2: b"two\n", 3: b"three!\n", 4: b"four\n", 5: b"5\n"},
-                {1: b"d", 2: b"e", 3: b"nowhere", 4: b"a", 5: b"."})
+                {1: b"zdir", 2: b"zdir/sub", 3: b"nowhere", 4: b"./zdir/", 5: b".."})
     raise KeyError(name)
 
 
@@ -245,6 +245,8 @@ class World:
         os.makedirs(os.path.join(g, "refs", "heads"))
         with open(os.path.join(g, "HEAD"), "w") as f:
             f.write("ref: refs/heads/master\n")
+        # two empty directories (invisible to git) that the link targets of the "linkdir" scheme name
+        os.makedirs(os.path.join(self.broot, b"zdir", b"sub"))
         self.clock = 0
 
     # ---- working directory edits (the harness plays the user; no dulwich, no git)
@@ -260,6 +262,8 @@ class World:
         k, c = cell
         fp = self.fs(p)
         os.makedirs(os.path.dirname(fp), exist_ok=True)
+        if os.path.isdir(fp) and not os.path.islink(fp):
+            os.rmdir(fp)            # an empty directory left behind by an earlier deletion
         if k == "L":
             os.symlink(self.scheme.data(k, c), fp)
         else:
@@ -351,7 +355,7 @@ class World:
 
         def walk(d, rel):
             for n in sorted(os.listdir(d)):
-                if not rel and n == b".git":
+                if not rel and n in (b".git", b"zdir"):
                     continue
                 fp = os.path.join(d, n)
                 r = rel + (n,)
